@@ -34,4 +34,10 @@ man = dict(version=1, setup_cmd="./check --setup", hooks=hooks,
            checks=checks, not_applicable=na,
            notes="See DESIGN.md. known_findings.json lists recorded defects; replays/ holds violation replays.")
 json.dump(man, open(os.path.join(ROOT, "MANIFEST.json"), "w"), indent=1)
+# merge known_findings.d/*.json -> known_findings.json (the committed list the checks read)
+kf = []
+for p in sorted(glob.glob(os.path.join(ROOT, "known_findings.d", "*.json"))):
+    kf += json.load(open(p)).get("findings", [])
+json.dump({"comment": "Committed list of genuine defects of the unchanged tree: kind=known (recorded, not repaired; the check prints KNOWN-FINDING and exits 0 for inputs in the class named by 'predicate', a decidable class implemented in that property's check) and kind=fixed (repaired by a fix: commit; suppresses nothing). Assembled from known_findings.d/*.json by tools/mkmanifest.py; never written at run time.",
+           "findings": kf}, open(os.path.join(ROOT, "known_findings.json"), "w"), indent=1)
 print("MANIFEST.json: %d checks, %d not claimed" % (len(checks), len(na)))
